@@ -95,6 +95,14 @@ pub fn gen(tier: &str, seed: u64) -> Gen {
             for _ in 0..nargs {
                 v.push(ts(HOSTILE[rng.below(HOSTILE.len())]));
             }
+            // a loop whose hostile condition happens to be true and whose body happens to succeed
+            // would be a user-written endless loop (excluded by the property): loop bodies break
+            if c[0] == "while" && v.len() == 3 {
+                v[2] = ts("break");
+            }
+            if c[0] == "for" && v.len() == 5 {
+                v[4] = ts("break");
+            }
             cases.push(tl(vec![ts("cmd"), tl(v)]));
             k += 1;
         }
